@@ -233,7 +233,7 @@ fn record_histories<T: MomT>(out: &mut impl Write, prop: &str, n: usize, rng: &m
             }
             let mut touched = a;
             let res = std::panic::catch_unwind(std::panic::AssertUnwindSafe(|| {
-                if r < 70 {
+                if r < 55 {
                     // a run of adds into one object
                     let k = rng.random_range(1..=12usize).min(data.len() - di);
                     for _ in 0..k {
@@ -241,6 +241,21 @@ fn record_histories<T: MomT>(out: &mut impl Write, prop: &str, n: usize, rng: &m
                         writeln!(out, "{}", add_event(a + 1, data[di])).unwrap();
                         di += 1;
                     }
+                } else if r < 70 {
+                    // collect (fresh) or extend of up to 70 observations, by value or by reference, through
+                    // the three iterator shapes of Ingest.tla: the meaning is the add loop
+                    let k = rng.random_range(0..=70usize).min(data.len() - di);
+                    let xs = &data[di..di + k];
+                    di += k;
+                    let by_ref = rng.random_range(0..2) == 1;
+                    let shape = [Shape::Exact, Shape::Lazy, Shape::Resuming][rng.random_range(0..3)];
+                    let fresh = rng.random_range(0..3) == 0;
+                    if fresh {
+                        objs[a] = T::collect_shaped(xs, by_ref, shape);
+                    } else {
+                        objs[a].extend_shaped(xs, by_ref, shape);
+                    }
+                    writeln!(out, "{}", batch_event(a + 1, fresh, T::ORDER, xs)).unwrap();
                 } else if r < 84 {
                     let src = objs[b].clone();
                     objs[a].merge(&src);
